@@ -51,6 +51,10 @@ CHECKS = {
   technique="deterministic simulation: seeded call histories on one long-lived parser/encoder/decoder instance (incl. the shared pvl_validate/pvl_translate instances) with failing calls and in-flight aborts injected through the instance's token channel (SimLexer: EOF or SimAbort at token k), each call compared with a fresh instance and, sampled, with a cold child forked from a pristine interpreter",
   text="Seeded search over histories of 2-12 calls (well-formed, value-loss, token-damaged and tests/data labels; encodable and unencodable modules; decodable and undecodable texts; crash-and-reuse via aborted token streams) on one instance; every call's module+errors or exception type+message+position must equal a fresh instance's, 5% also a cold process's. Exploration over the histories run.",
   note="Trusted: a fresh instance of the documented configuration as the reference; result descriptors (canonical module, errors attribute, exception type/message/position)."),
+"C20": dict(engine="E2-io", design="5 (C20)",
+  technique="deterministic simulation of the command-line tools in-process: seeded scratch directories of good, damaged, value-loss, non-encodable and binary-tailed files and seeded sequences of pvl_validate.main / pvl_translate.main invocations sharing the tools' module-level instances, simulated STDIN (seekable or pipe) and STDOUT; oracle = the library on fresh instances",
+  text="Seeded search over (file set, damage, invocation sequence, formats, stream kinds); translate output must equal pvl.dumps(pvl.load(input), fresh encoder) byte for byte (JSON: parse to the nested pairs) and fail exactly when that call fails; every validate cell must equal what a fresh parser/encoder of that dialect does and every file must have a row. Exploration (~50k tool and reference calls per quick run).",
+  note="Trusted: fresh instances built from the documented configuration of each row/format; report parsing of the two documented layouts; in-process execution of main(argv)."),
 }
 ENGINES = [
  {"name":"E1-token-channel","path":"sim/chan.py, sim/gen.py, sim/refparse.py","serves_properties":["C05","C06","C08","C15"],"kind_free_text":"token-channel interposer (lexer_fn seam) and stored-text damage with an independent token-kind recogniser as oracle"},
